@@ -14,6 +14,8 @@ use std::sync::{Arc, Condvar, Mutex};
 pub enum Prog {
     Hash(&'static str, u8),
     Cipher(&'static str, u8),
+    /// a cipher variable that is re-keyed IN PLACE (`c = K::new(..)`: a different cipher at the same address)
+    Rekey(&'static str, u8),
 }
 
 pub struct Scenario {
@@ -42,6 +44,12 @@ pub fn scenarios() -> Vec<Scenario> {
         // the XChaCha round-count variants with the SAME key and nonce (anything cached per key/nonce)
         Scenario { name: "j-XChaChaSameKey", progs: vec![Prog::Cipher("XChaCha8", 27), Prog::Cipher("XChaCha12", 27), Prog::Cipher("XChaCha20", 27)], steps: 3 },
         Scenario { name: "k-ChaChaSameKey", progs: vec![Prog::Cipher("ChaCha8", 28), Prog::Cipher("ChaCha12", 28), Prog::Cipher("ChaCha20", 28), Prog::Hash("Blake256", 29)], steps: 2 },
+        // all output sizes of one family on one thread (anything memoised per family rather than per type)
+        Scenario { name: "m-GroestlSiblings", progs: vec![Prog::Hash("Groestl224", 35), Prog::Hash("Groestl256", 36), Prog::Hash("Groestl384", 37), Prog::Hash("Groestl512", 38)], steps: 2 },
+        Scenario { name: "n-BlakeJhSiblings", progs: vec![Prog::Hash("Blake224", 39), Prog::Hash("Blake256", 40), Prog::Hash("Jh224", 41), Prog::Hash("Jh256", 42)], steps: 2 },
+        Scenario { name: "o-BlakeJhSiblings2", progs: vec![Prog::Hash("Blake384", 43), Prog::Hash("Blake512", 44), Prog::Hash("Jh384", 45), Prog::Hash("Jh512", 46)], steps: 2 },
+        // cipher variables re-keyed in place (anything remembered per object address)
+        Scenario { name: "p-RekeyInPlace", progs: vec![Prog::Rekey("ChaCha20", 47), Prog::Rekey("Ietf", 48), Prog::Cipher("XChaCha20", 49)], steps: 3 },
         Scenario { name: "h-SkeinFamilies", progs: vec![Prog::Hash("Skein256/16", 20), Prog::Hash("Skein256", 21), Prog::Hash("Skein1024/16", 22), Prog::Hash("Skein1024", 23)], steps: 2 },
     ]
 }
@@ -106,6 +114,7 @@ fn message(seed: u8) -> Vec<u8> {
 enum Th {
     Hash { name: &'static str, seed: u8, h: Option<Box<dyn DynDigest>> },
     Cipher { name: &'static str, seed: u8, c: Option<Box<dyn FnMut(&str, usize) -> Vec<u8>>> },
+    Rekey { name: &'static str, seed: u8, c: Option<Box<dyn FnMut(&str, usize) -> Vec<u8>>> },
 }
 
 fn cipher_runner<K: Kind>(seed: u8) -> Box<dyn FnMut(&str, usize) -> Vec<u8>> {
@@ -115,6 +124,13 @@ fn cipher_runner<K: Kind>(seed: u8) -> Box<dyn FnMut(&str, usize) -> Vec<u8>> {
     Box::new(move |op, n| match op {
         "apply" => {
             let mut b = vec![0u8; n];
+            c.apply_keystream(&mut b);
+            b
+        }
+        "rekey" => {
+            // n doubles as the new seed; the new cipher takes the place of the old one
+            c = K::new(&key_pattern(n), &nonce_pattern(n, K::NONCE_LEN));
+            let mut b = vec![0u8; if n % 2 == 0 { 10 } else { 70 }];
             c.apply_keystream(&mut b);
             b
         }
@@ -161,11 +177,27 @@ fn cipher_expected(name: &str, seed: u8, steps: usize) -> Vec<u8> {
     out
 }
 
+fn rekey_expected(name: &str, seed: u8) -> Vec<u8> {
+    use vref::chacha::{Layout, Stream};
+    let (layout, dr, nl) = match name {
+        "ChaCha20" => (Layout::Djb, 10, 8),
+        "Ietf" => (Layout::Ietf, 10, 12),
+        o => panic!("unknown cipher {}", o),
+    };
+    let s1 = seed as usize + 64 + (seed as usize % 2); // even: 10 bytes
+    let s2 = seed as usize + 129 - (seed as usize % 2); // odd: 70 bytes
+    let mut out = Stream::new(layout, dr, &key_pattern(seed as usize), &nonce_pattern(seed as usize, nl)).bytes(0, 10);
+    out.extend(Stream::new(layout, dr, &key_pattern(s1), &nonce_pattern(s1, nl)).bytes(0, if s1 % 2 == 0 { 10 } else { 70 }));
+    out.extend(Stream::new(layout, dr, &key_pattern(s2), &nonce_pattern(s2, nl)).bytes(0, if s2 % 2 == 0 { 10 } else { 70 }));
+    out
+}
+
 impl Th {
     fn new(p: Prog) -> Th {
         match p {
             Prog::Hash(name, seed) => Th::Hash { name, seed, h: None },
             Prog::Cipher(name, seed) => Th::Cipher { name, seed, c: None },
+            Prog::Rekey(name, seed) => Th::Rekey { name, seed, c: None },
         }
     }
     fn step(&mut self, k: usize, steps: usize) -> Vec<u8> {
@@ -186,6 +218,12 @@ impl Th {
                     }
                 }
             }
+            Th::Rekey { name, seed, c } => match k {
+                // 10 bytes from the first block, then two in-place re-keyings, each read from its first block
+                0 => { let mut r = make_cipher(name, *seed); let o = r("apply", 10); *c = Some(r); o }
+                1 => (c.as_mut().unwrap())("rekey", *seed as usize + 64 + (*seed as usize % 2)),
+                _ => (c.as_mut().unwrap())("rekey", *seed as usize + 129 - (*seed as usize % 2)),
+            },
             Th::Cipher { name, seed, c } => {
                 if steps == 3 {
                     match k {
@@ -210,6 +248,7 @@ pub fn expected(sc: &Scenario) -> Vec<Vec<u8>> {
         .map(|p| match p {
             Prog::Hash(name, seed) => ref_digest(name, &message(*seed)),
             Prog::Cipher(name, seed) => cipher_expected(name, *seed, sc.steps),
+            Prog::Rekey(name, seed) => rekey_expected(name, *seed),
         })
         .collect()
 }
